@@ -14,6 +14,9 @@ verus! {
 //@cursor-shim
 //@path byteorder::LE => LE
 //@path crate::compaction::Fifo => Fifo
+//@path crate::compaction::Leveled => Leveled
+//@type Arc<dynlsm_tree::compaction::CompactionStrategy+Send+Sync> => Arc<Leveled>
+//@identity-cast Arc<Leveled>
 
 // `&[u8]` as the decode functions see it (in U-POLICY the same parameter is a cursor at position 0 over these bytes)
 pub trait CursorView { spec fn at_start(&self) -> bool; spec fn rs(&self) -> RS; }
@@ -176,6 +179,32 @@ pub open spec fn row_u64(w: World, id: u64, name: Seq<char>) -> u64 { de64(w.row
         r is Ok ==> r->Ok_0.t.ttl_seconds == (if old(w).rows[(keyspace_id, "fifo_ttl"@)] == seq![1u8] { Some(row_u64(*old(w), keyspace_id, "fifo_ttl_seconds"@)) } else { None::<u64> }), // [C16:fifo-ttl-recovered-from-its-own-rows]
 //@proof before let ttl_seconds
     proof { assert([1u8]@ =~= seq![1u8]); }
+//@end
+
+// lsm-tree compaction::Leveled (builder): only the three stored parameters
+pub struct Leveled { pub l0_threshold: Ghost<Option<u8>>, pub target_size: Ghost<Option<u64>>, pub ratios: Ghost<Option<Seq<f32>>> }
+impl Leveled {
+    #[verifier::external_body] pub fn default() -> (r: Leveled) ensures r.l0_threshold@ is None, r.target_size@ is None, r.ratios@ is None { unimplemented!() }
+    #[verifier::external_body] pub fn with_l0_threshold(self, v: u8) -> (r: Leveled) ensures r.l0_threshold@ == Some(v), r.target_size == self.target_size, r.ratios == self.ratios { unimplemented!() }
+    #[verifier::external_body] pub fn with_table_target_size(self, v: u64) -> (r: Leveled) ensures r.target_size@ == Some(v), r.l0_threshold == self.l0_threshold, r.ratios == self.ratios { unimplemented!() }
+    #[verifier::external_body] pub fn with_level_ratio_policy(self, v: Vec<f32>) -> (r: Leveled) ensures r.ratios@ == Some(v@), r.l0_threshold == self.l0_threshold, r.target_size == self.target_size { unimplemented!() }
+}
+
+//@extract src/keyspace/options.rs :: CreateOptions :: from_kvs as=from_kvs_leveled world props=C16
+//@anchor let l0_threshold = meta_keyspace
+//@to-block-end
+//@wrap-ok
+//@sig fn from_kvs_leveled(keyspace_id: InternalKeyspaceId, meta_keyspace: &MetaKeyspace) -> FjResult<Arc<Leveled>>
+//@contract
+    requires old(w).rows.dom().contains((keyspace_id, "leveled_l0_threshold"@)), old(w).rows.dom().contains((keyspace_id, "leveled_target_size"@)),
+        old(w).rows.dom().contains((keyspace_id, "leveled_level_ratio_policy"@)),
+    ensures
+        // the Leveled parameters are recovered from their own rows, at full width
+        r is Ok ==> r->Ok_0.t.l0_threshold@ == Some(old(w).rows[(keyspace_id, "leveled_l0_threshold"@)][0]), // [C16:leveled-l0-threshold-recovered-from-its-own-row]
+        r is Ok ==> r->Ok_0.t.target_size@ == Some(row_u64(*old(w), keyspace_id, "leveled_target_size"@)), // [C16:leveled-target-size-recovered-from-its-own-row-at-full-width]
+        // (the level ratios are read by a counted loop of `read_f32` over the same row; only its memory safety is shown here)
+//@loop 0
+            invariant 0 <= level_ratio_policy_bytes.rs().pos <= level_ratio_policy_bytes.rs().all.len(),
 //@end
 
 //@canary
